@@ -381,3 +381,19 @@ Theorem C18_convolve_index_modes_linear : forall (src : Z -> Z -> Z) (y1 y2 k : 
   end.
 Proof. exact convolve_src_linear. Qed.
 Print Assumptions C18_convolve_index_modes_linear.
+
+(* padded_convolve is linear in the KERNEL for EVERY mode (any np.pad function, 'extrapolate' with any
+   windows, valid or not): the padding depends on the kernel through its length only, so the call on
+   a*k1 + b*k2 is rejected exactly when the calls on k1 and k2 are (same error) and otherwise returns
+   a*out1 + b*out2 point by point, for every data length, kernel length and scalars. *)
+Theorem C18_convolve_kernel_linear : forall (m : mode) (y k1 k2 : vec) (a b : Q),
+  vlen k1 = vlen k2 ->
+  match padded_convolve y k1 m, padded_convolve y k2 m, padded_convolve y (vlin a b k1 k2) m with
+  | Ok o1, Ok o2, Ok o =>
+      vlen o = vlen o1 /\ vlen o = vlen o2 /\
+      forall i, (vget o i == a * vget o1 i + b * vget o2 i)%Q
+  | Err e1, Err e2, Err e => e1 = e /\ e2 = e
+  | _, _, _ => False
+  end.
+Proof. exact convolve_kernel_linear. Qed.
+Print Assumptions C18_convolve_kernel_linear.
